@@ -89,6 +89,10 @@ struct Encoding<
     : EncodingIO<LogicalBuffer<BufferType, SizeType, IsUnbounded>> {
   using Type = LogicalBuffer<BufferType, SizeType, IsUnbounded>;
   using ValueType = std::remove_const_t<typename Type::ValueType>;
+  // The length prefix uses the library-wide size type, not the type of the
+  // size member (the template parameter SizeType), so that the encoding is the
+  // same as that of the fungible array and vector types.
+  using LengthType = ::nop::SizeType;
   enum : std::size_t { Length = Type::Length };
 
   static constexpr EncodingByte Prefix(const Type& /*value*/) {
@@ -101,7 +105,7 @@ struct Encoding<
       element_size_sum += Encoding<ValueType>::Size(element);
 
     return BaseEncodingSize(Prefix(value)) +
-           Encoding<SizeType>::Size(value.size()) + element_size_sum;
+           Encoding<LengthType>::Size(value.size()) + element_size_sum;
   }
 
   static constexpr bool Match(EncodingByte prefix) {
@@ -112,15 +116,15 @@ struct Encoding<
   static constexpr Status<void> WritePayload(EncodingByte /*prefix*/,
                                              const Type& value,
                                              Writer* writer) {
-    const SizeType size = static_cast<SizeType>(value.size());
+    const LengthType size = static_cast<LengthType>(value.size());
     if (!IsUnbounded && size > Length)
       return ErrorStatus::InvalidContainerLength;
 
-    auto status = Encoding<SizeType>::Write(size, writer);
+    auto status = Encoding<LengthType>::Write(size, writer);
     if (!status)
       return status;
 
-    for (SizeType i = 0; i < size; i++) {
+    for (LengthType i = 0; i < size; i++) {
       status = Encoding<ValueType>::Write(value[i], writer);
       if (!status)
         return status;
@@ -132,20 +136,20 @@ struct Encoding<
   template <typename Reader>
   static constexpr Status<void> ReadPayload(EncodingByte /*prefix*/,
                                             Type* value, Reader* reader) {
-    SizeType size = 0;
-    auto status = Encoding<SizeType>::Read(&size, reader);
+    LengthType size = 0;
+    auto status = Encoding<LengthType>::Read(&size, reader);
     if (!status)
       return status;
     else if (!IsUnbounded && size > Length)
       return ErrorStatus::InvalidContainerLength;
 
-    for (SizeType i = 0; i < size; i++) {
+    for (LengthType i = 0; i < size; i++) {
       status = Encoding<ValueType>::Read(&(*value)[i], reader);
       if (!status)
         return status;
     }
 
-    value->size() = size;
+    value->size() = static_cast<SizeType>(size);
     return {};
   }
 };
@@ -159,6 +163,10 @@ struct Encoding<LogicalBuffer<BufferType, SizeType, IsUnbounded>,
     : EncodingIO<LogicalBuffer<BufferType, SizeType, IsUnbounded>> {
   using Type = LogicalBuffer<BufferType, SizeType, IsUnbounded>;
   using ValueType = std::remove_const_t<typename Type::ValueType>;
+  // The length prefix uses the library-wide size type, not the type of the
+  // size member (the template parameter SizeType), so that the encoding is the
+  // same as that of the fungible array and vector types.
+  using LengthType = ::nop::SizeType;
   enum : std::size_t { Length = Type::Length };
 
   static constexpr EncodingByte Prefix(const Type& /*value*/) {
@@ -167,7 +175,7 @@ struct Encoding<LogicalBuffer<BufferType, SizeType, IsUnbounded>,
 
   static constexpr std::size_t Size(const Type& value) {
     const std::size_t size = value.size() * sizeof(ValueType);
-    return BaseEncodingSize(Prefix(value)) + Encoding<SizeType>::Size(size) +
+    return BaseEncodingSize(Prefix(value)) + Encoding<LengthType>::Size(size) +
            size;
   }
 
@@ -179,11 +187,12 @@ struct Encoding<LogicalBuffer<BufferType, SizeType, IsUnbounded>,
   static constexpr Status<void> WritePayload(EncodingByte /*prefix*/,
                                              const Type& value,
                                              Writer* writer) {
-    const SizeType size = value.size();
+    const LengthType size = static_cast<LengthType>(value.size());
     if (!IsUnbounded && size > Length)
       return ErrorStatus::InvalidContainerLength;
 
-    auto status = Encoding<SizeType>::Write(size * sizeof(ValueType), writer);
+    auto status =
+        Encoding<LengthType>::Write(size * sizeof(ValueType), writer);
     if (!status)
       return status;
 
@@ -193,8 +202,8 @@ struct Encoding<LogicalBuffer<BufferType, SizeType, IsUnbounded>,
   template <typename Reader>
   static constexpr Status<void> ReadPayload(EncodingByte /*prefix*/,
                                             Type* value, Reader* reader) {
-    SizeType size_bytes = 0;
-    auto status = Encoding<SizeType>::Read(&size_bytes, reader);
+    LengthType size_bytes = 0;
+    auto status = Encoding<LengthType>::Read(&size_bytes, reader);
     if (!status) {
       return status;
     } else if ((!IsUnbounded && size_bytes > Length * sizeof(ValueType)) ||
@@ -202,8 +211,8 @@ struct Encoding<LogicalBuffer<BufferType, SizeType, IsUnbounded>,
       return ErrorStatus::InvalidContainerLength;
     }
 
-    const SizeType size = size_bytes / sizeof(ValueType);
-    value->size() = size;
+    const LengthType size = size_bytes / sizeof(ValueType);
+    value->size() = static_cast<SizeType>(size);
     return reader->Read(value->begin(), value->end());
   }
 };
